@@ -208,6 +208,38 @@ def strStrip (s cs : String) : String :=
 def strReplace (s : String) (c : Char) (t : String) : String :=
   String.ofList (s.toList.flatMap (fun ch => if ch = c then t.toList else [ch]))
 
+/-! fifth batch -/
+
+/-- python `round(x)` of a float (one argument): the nearest integer, a tie goes to the EVEN neighbour -/
+def round (x : Rat) : Int :=
+  let fl := Rat.floor x
+  let r := x - (fl : Rat)
+  if r < 1 / 2 then fl else if 1 / 2 < r then fl + 1 else if fl % 2 = 0 then fl else fl + 1
+
+/-- `d.values()` of an insertion-ordered dict, in insertion order -/
+def dictValues {κ β} (d : List (κ × β)) : List β := d.map (fun p => p.2)
+/-- `a.isdisjoint(b)` on sets -/
+def setDisjoint {α} [DecidableEq α] (a b : List α) : Bool := a.all (fun x => !b.contains x)
+
+/-- `x % 1.0` on a float: `x - floor(x)`, in `[0, 1)` (python / numpy `%` takes the sign of the divisor) -/
+def fmod1 (x : Rat) : Rat := x - (Rat.floor x : Rat)
+
+/-- `for x in xs: <body updating st, may break>`: the body yields the new state and whether it executed `break` -/
+def forBreak {α σ} : List α → σ → (σ → α → σ × Bool) → σ
+  | [], st, _ => st
+  | x :: xs, st, f => if (f st x).2 then (f st x).1 else forBreak xs (f st x).1 f
+/-- the same when the body may raise -/
+def forBreakM? {α σ} : List α → σ → (σ → α → Option (σ × Bool)) → Option σ
+  | [], st, _ => some st
+  | x :: xs, st, f =>
+    match f st x with
+    | none => none
+    | some (st', true) => some st'
+    | some (st', false) => forBreakM? xs st' f
+
+/-- `numpy.linalg.norm(v) < d` for a 3-vector: `d > 0` and `‖v‖² < d²` (no square root: exact on rationals) -/
+def normLt (v : Vec3) (d : Rat) : Bool := decide (0 < d) && decide (v.x * v.x + v.y * v.y + v.z * v.z < d * d)
+
 end Mofun.Generated.Py
 
 namespace Mofun.Generated.Code
@@ -745,5 +777,99 @@ def cifChargeReader : String :=
 /-- translated from `load_p1_cif` in mofun/atoms.py class Atoms (FRAGMENT: the name of the function that reads one coordinate) -/
 def cifCoordReader : String :=
   "tofloat"
+
+/-- the default `replace_fraction=1.0` of `replace_pattern_in_structure` -/
+def replaceUsesSample_default_replace_fraction : Rat := (Dec.toRat ⟨10, 1⟩)
+
+/-- translated from `replace_pattern_in_structure` in mofun/mofun.py (FRAGMENT: is only a sample of the matches replaced) -/
+def replaceUsesSample (replace_fraction : Rat) : Bool :=
+  (decide (replace_fraction < (Dec.toRat ⟨10, 1⟩)))
+
+/-- the default `replace_fraction=1.0` of `replace_pattern_in_structure` -/
+def replaceSampleSize_default_replace_fraction : Rat := (Dec.toRat ⟨10, 1⟩)
+
+/-- translated from `replace_pattern_in_structure` in mofun/mofun.py (FRAGMENT: the number of matches `random.sample` is asked for, `round(replace_fraction * len(match_positions))`) -/
+def replaceSampleSize (replace_fraction : Rat) (num_matches : Nat) : Int :=
+  (Py.round (replace_fraction * ((num_matches : Nat) : Rat)))
+
+/-- the default `replace_all=False` of `replace_pattern_in_structure` -/
+def replaceIndexMap_default_replace_all : Bool := false
+
+/-- translated from `replace_pattern_in_structure` in mofun/mofun.py (FRAGMENT: the structure_index_map of one match — `{}`, then for `not replace_all` the dict comprehension `{k: match_indices[m_i][v] for k, v in replace2search_pattern_map.items()}`; `none` = IndexError) -/
+def replaceIndexMap (replace_all : Bool) (match_indices : List (List Nat)) (m_i : Nat) (replace2search_pattern_map : List (Nat × Nat)) : Option (List (Nat × Nat)) := do
+  let structure_index_map : List (Nat × Nat) := []
+  if (!replace_all) then
+    let t3 ← (Py.dictCompM? replace2search_pattern_map (fun (k, v) => (do let t1 ← (match_indices[m_i]?); let t2 ← (t1[v]?); pure (k, t2))))
+    let structure_index_map : List (Nat × Nat) := t3
+    pure structure_index_map
+  else
+    pure structure_index_map
+
+/-- translated from `replace_pattern_in_structure` in mofun/mofun.py (FRAGMENT: the atoms one match wants deleted, `set(match_indices[m_i]) - set(structure_index_map.values())`; `none` = IndexError) -/
+def replaceDeleteLinker (match_indices : List (List Nat)) (m_i : Nat) (structure_index_map : List (Nat × Nat)) : Option (List Nat) := do
+  let t1 ← (match_indices[m_i]?)
+  pure (Py.setDiff t1 (Py.dictValues structure_index_map))
+
+/-- the default `ignore_atoms_should_not_be_deleted_twice=False` of `replace_pattern_in_structure` -/
+def replaceMergeDelete_default_ignore_atoms_should_not_be_deleted_twice : Bool := false
+
+/-- translated from `replace_pattern_in_structure` in mofun/mofun.py (FRAGMENT: the deletion set after one match — the `if to_delete.isdisjoint(…) or ignore…:` statement with both outcomes; `none` = `raise AtomsShouldNotBeDeletedTwice()`) -/
+def replaceMergeDelete (ignore_atoms_should_not_be_deleted_twice : Bool) (to_delete : List Nat) (to_delete_linker : List Nat) : Option (List Nat) := do
+  if ((Py.setDisjoint to_delete to_delete_linker) || ignore_atoms_should_not_be_deleted_twice) then
+    let to_delete : List Nat := (Py.setUnion to_delete to_delete_linker)
+    pure to_delete
+  else
+    none  -- raise
+
+/-- translated from `translate` in mofun/atoms.py class Atoms for ONE atom: the new value of its row of `self.positions` (`self.positions += delta`, guarded by `len(self) > 0`) -/
+def atomsTranslate (positions : Vec3) (self_len : Nat) (delta : Vec3) : Vec3 :=
+  if (true && (decide (self_len > 0))) then
+    let positions' : Vec3 := (⟨(positions.x + delta.x), (positions.y + delta.y), (positions.z + delta.z)⟩ : Vec3)
+    (positions')
+  else
+    (positions)
+
+/-- translated from `replace_pattern_in_structure` in mofun/mofun.py (FRAGMENT on positions: the two pre-translations `replace_pattern.translate(-search_pattern.positions[0])`, `search_pattern.translate(-search_pattern.positions[0])` IN THE ORDER OF THE SOURCE; result = (a replace-pattern atom, the first search-pattern atom, any other search-pattern atom) afterwards) -/
+def replacePretranslate (search_pattern_positions_0 : Vec3) (search_pattern_positions_1 : Vec3) (search_pattern_len : Nat) (replace_pattern_positions_0 : Vec3) (replace_pattern_len : Nat) : Vec3 × Vec3 × Vec3 :=
+  let replace_pattern_positions_0' : Vec3 := (atomsTranslate replace_pattern_positions_0 replace_pattern_len (⟨(-search_pattern_positions_0.x), (-search_pattern_positions_0.y), (-search_pattern_positions_0.z)⟩ : Vec3))
+  let search_pattern_positions_0' : Vec3 := (atomsTranslate search_pattern_positions_0 search_pattern_len (⟨(-search_pattern_positions_0.x), (-search_pattern_positions_0.y), (-search_pattern_positions_0.z)⟩ : Vec3))
+  let search_pattern_positions_1' : Vec3 := (atomsTranslate search_pattern_positions_1 search_pattern_len (⟨(-search_pattern_positions_0.x), (-search_pattern_positions_0.y), (-search_pattern_positions_0.z)⟩ : Vec3))
+  (replace_pattern_positions_0', search_pattern_positions_0', search_pattern_positions_1')
+
+/-- translated from `replace_pattern_in_structure` in mofun/mofun.py (FRAGMENT for ONE atom: the wrap into the unit cell, `(new_atoms.positions.dot(np.linalg.inv(cell)) % 1.0).dot(cell)`; the inverse is expanded as adjugate / determinant) -/
+def replaceWrap (pos : Vec3) (cell : Mat3) : Vec3 :=
+  (⟨((((Py.fmod1 (((pos.x * (((cell.b.y * cell.c.z) - (cell.b.z * cell.c.y)) / (((cell.a.x * ((cell.b.y * cell.c.z) - (cell.b.z * cell.c.y))) - (cell.a.y * ((cell.b.x * cell.c.z) - (cell.b.z * cell.c.x)))) + (cell.a.z * ((cell.b.x * cell.c.y) - (cell.b.y * cell.c.x)))))) + (pos.y * ((-((cell.b.x * cell.c.z) - (cell.b.z * cell.c.x))) / (((cell.a.x * ((cell.b.y * cell.c.z) - (cell.b.z * cell.c.y))) - (cell.a.y * ((cell.b.x * cell.c.z) - (cell.b.z * cell.c.x)))) + (cell.a.z * ((cell.b.x * cell.c.y) - (cell.b.y * cell.c.x))))))) + (pos.z * (((cell.b.x * cell.c.y) - (cell.b.y * cell.c.x)) / (((cell.a.x * ((cell.b.y * cell.c.z) - (cell.b.z * cell.c.y))) - (cell.a.y * ((cell.b.x * cell.c.z) - (cell.b.z * cell.c.x)))) + (cell.a.z * ((cell.b.x * cell.c.y) - (cell.b.y * cell.c.x)))))))) * cell.a.x) + ((Py.fmod1 (((pos.x * ((-((cell.a.y * cell.c.z) - (cell.a.z * cell.c.y))) / (((cell.a.x * ((cell.b.y * cell.c.z) - (cell.b.z * cell.c.y))) - (cell.a.y * ((cell.b.x * cell.c.z) - (cell.b.z * cell.c.x)))) + (cell.a.z * ((cell.b.x * cell.c.y) - (cell.b.y * cell.c.x)))))) + (pos.y * (((cell.a.x * cell.c.z) - (cell.a.z * cell.c.x)) / (((cell.a.x * ((cell.b.y * cell.c.z) - (cell.b.z * cell.c.y))) - (cell.a.y * ((cell.b.x * cell.c.z) - (cell.b.z * cell.c.x)))) + (cell.a.z * ((cell.b.x * cell.c.y) - (cell.b.y * cell.c.x))))))) + (pos.z * ((-((cell.a.x * cell.c.y) - (cell.a.y * cell.c.x))) / (((cell.a.x * ((cell.b.y * cell.c.z) - (cell.b.z * cell.c.y))) - (cell.a.y * ((cell.b.x * cell.c.z) - (cell.b.z * cell.c.x)))) + (cell.a.z * ((cell.b.x * cell.c.y) - (cell.b.y * cell.c.x)))))))) * cell.b.x)) + ((Py.fmod1 (((pos.x * (((cell.a.y * cell.b.z) - (cell.a.z * cell.b.y)) / (((cell.a.x * ((cell.b.y * cell.c.z) - (cell.b.z * cell.c.y))) - (cell.a.y * ((cell.b.x * cell.c.z) - (cell.b.z * cell.c.x)))) + (cell.a.z * ((cell.b.x * cell.c.y) - (cell.b.y * cell.c.x)))))) + (pos.y * ((-((cell.a.x * cell.b.z) - (cell.a.z * cell.b.x))) / (((cell.a.x * ((cell.b.y * cell.c.z) - (cell.b.z * cell.c.y))) - (cell.a.y * ((cell.b.x * cell.c.z) - (cell.b.z * cell.c.x)))) + (cell.a.z * ((cell.b.x * cell.c.y) - (cell.b.y * cell.c.x))))))) + (pos.z * (((cell.a.x * cell.b.y) - (cell.a.y * cell.b.x)) / (((cell.a.x * ((cell.b.y * cell.c.z) - (cell.b.z * cell.c.y))) - (cell.a.y * ((cell.b.x * cell.c.z) - (cell.b.z * cell.c.x)))) + (cell.a.z * ((cell.b.x * cell.c.y) - (cell.b.y * cell.c.x)))))))) * cell.c.x)), ((((Py.fmod1 (((pos.x * (((cell.b.y * cell.c.z) - (cell.b.z * cell.c.y)) / (((cell.a.x * ((cell.b.y * cell.c.z) - (cell.b.z * cell.c.y))) - (cell.a.y * ((cell.b.x * cell.c.z) - (cell.b.z * cell.c.x)))) + (cell.a.z * ((cell.b.x * cell.c.y) - (cell.b.y * cell.c.x)))))) + (pos.y * ((-((cell.b.x * cell.c.z) - (cell.b.z * cell.c.x))) / (((cell.a.x * ((cell.b.y * cell.c.z) - (cell.b.z * cell.c.y))) - (cell.a.y * ((cell.b.x * cell.c.z) - (cell.b.z * cell.c.x)))) + (cell.a.z * ((cell.b.x * cell.c.y) - (cell.b.y * cell.c.x))))))) + (pos.z * (((cell.b.x * cell.c.y) - (cell.b.y * cell.c.x)) / (((cell.a.x * ((cell.b.y * cell.c.z) - (cell.b.z * cell.c.y))) - (cell.a.y * ((cell.b.x * cell.c.z) - (cell.b.z * cell.c.x)))) + (cell.a.z * ((cell.b.x * cell.c.y) - (cell.b.y * cell.c.x)))))))) * cell.a.y) + ((Py.fmod1 (((pos.x * ((-((cell.a.y * cell.c.z) - (cell.a.z * cell.c.y))) / (((cell.a.x * ((cell.b.y * cell.c.z) - (cell.b.z * cell.c.y))) - (cell.a.y * ((cell.b.x * cell.c.z) - (cell.b.z * cell.c.x)))) + (cell.a.z * ((cell.b.x * cell.c.y) - (cell.b.y * cell.c.x)))))) + (pos.y * (((cell.a.x * cell.c.z) - (cell.a.z * cell.c.x)) / (((cell.a.x * ((cell.b.y * cell.c.z) - (cell.b.z * cell.c.y))) - (cell.a.y * ((cell.b.x * cell.c.z) - (cell.b.z * cell.c.x)))) + (cell.a.z * ((cell.b.x * cell.c.y) - (cell.b.y * cell.c.x))))))) + (pos.z * ((-((cell.a.x * cell.c.y) - (cell.a.y * cell.c.x))) / (((cell.a.x * ((cell.b.y * cell.c.z) - (cell.b.z * cell.c.y))) - (cell.a.y * ((cell.b.x * cell.c.z) - (cell.b.z * cell.c.x)))) + (cell.a.z * ((cell.b.x * cell.c.y) - (cell.b.y * cell.c.x)))))))) * cell.b.y)) + ((Py.fmod1 (((pos.x * (((cell.a.y * cell.b.z) - (cell.a.z * cell.b.y)) / (((cell.a.x * ((cell.b.y * cell.c.z) - (cell.b.z * cell.c.y))) - (cell.a.y * ((cell.b.x * cell.c.z) - (cell.b.z * cell.c.x)))) + (cell.a.z * ((cell.b.x * cell.c.y) - (cell.b.y * cell.c.x)))))) + (pos.y * ((-((cell.a.x * cell.b.z) - (cell.a.z * cell.b.x))) / (((cell.a.x * ((cell.b.y * cell.c.z) - (cell.b.z * cell.c.y))) - (cell.a.y * ((cell.b.x * cell.c.z) - (cell.b.z * cell.c.x)))) + (cell.a.z * ((cell.b.x * cell.c.y) - (cell.b.y * cell.c.x))))))) + (pos.z * (((cell.a.x * cell.b.y) - (cell.a.y * cell.b.x)) / (((cell.a.x * ((cell.b.y * cell.c.z) - (cell.b.z * cell.c.y))) - (cell.a.y * ((cell.b.x * cell.c.z) - (cell.b.z * cell.c.x)))) + (cell.a.z * ((cell.b.x * cell.c.y) - (cell.b.y * cell.c.x)))))))) * cell.c.y)), ((((Py.fmod1 (((pos.x * (((cell.b.y * cell.c.z) - (cell.b.z * cell.c.y)) / (((cell.a.x * ((cell.b.y * cell.c.z) - (cell.b.z * cell.c.y))) - (cell.a.y * ((cell.b.x * cell.c.z) - (cell.b.z * cell.c.x)))) + (cell.a.z * ((cell.b.x * cell.c.y) - (cell.b.y * cell.c.x)))))) + (pos.y * ((-((cell.b.x * cell.c.z) - (cell.b.z * cell.c.x))) / (((cell.a.x * ((cell.b.y * cell.c.z) - (cell.b.z * cell.c.y))) - (cell.a.y * ((cell.b.x * cell.c.z) - (cell.b.z * cell.c.x)))) + (cell.a.z * ((cell.b.x * cell.c.y) - (cell.b.y * cell.c.x))))))) + (pos.z * (((cell.b.x * cell.c.y) - (cell.b.y * cell.c.x)) / (((cell.a.x * ((cell.b.y * cell.c.z) - (cell.b.z * cell.c.y))) - (cell.a.y * ((cell.b.x * cell.c.z) - (cell.b.z * cell.c.x)))) + (cell.a.z * ((cell.b.x * cell.c.y) - (cell.b.y * cell.c.x)))))))) * cell.a.z) + ((Py.fmod1 (((pos.x * ((-((cell.a.y * cell.c.z) - (cell.a.z * cell.c.y))) / (((cell.a.x * ((cell.b.y * cell.c.z) - (cell.b.z * cell.c.y))) - (cell.a.y * ((cell.b.x * cell.c.z) - (cell.b.z * cell.c.x)))) + (cell.a.z * ((cell.b.x * cell.c.y) - (cell.b.y * cell.c.x)))))) + (pos.y * (((cell.a.x * cell.c.z) - (cell.a.z * cell.c.x)) / (((cell.a.x * ((cell.b.y * cell.c.z) - (cell.b.z * cell.c.y))) - (cell.a.y * ((cell.b.x * cell.c.z) - (cell.b.z * cell.c.x)))) + (cell.a.z * ((cell.b.x * cell.c.y) - (cell.b.y * cell.c.x))))))) + (pos.z * ((-((cell.a.x * cell.c.y) - (cell.a.y * cell.c.x))) / (((cell.a.x * ((cell.b.y * cell.c.z) - (cell.b.z * cell.c.y))) - (cell.a.y * ((cell.b.x * cell.c.z) - (cell.b.z * cell.c.x)))) + (cell.a.z * ((cell.b.x * cell.c.y) - (cell.b.y * cell.c.x)))))))) * cell.b.z)) + ((Py.fmod1 (((pos.x * (((cell.a.y * cell.b.z) - (cell.a.z * cell.b.y)) / (((cell.a.x * ((cell.b.y * cell.c.z) - (cell.b.z * cell.c.y))) - (cell.a.y * ((cell.b.x * cell.c.z) - (cell.b.z * cell.c.x)))) + (cell.a.z * ((cell.b.x * cell.c.y) - (cell.b.y * cell.c.x)))))) + (pos.y * ((-((cell.a.x * cell.b.z) - (cell.a.z * cell.b.x))) / (((cell.a.x * ((cell.b.y * cell.c.z) - (cell.b.z * cell.c.y))) - (cell.a.y * ((cell.b.x * cell.c.z) - (cell.b.z * cell.c.x)))) + (cell.a.z * ((cell.b.x * cell.c.y) - (cell.b.y * cell.c.x))))))) + (pos.z * (((cell.a.x * cell.b.y) - (cell.a.y * cell.b.x)) / (((cell.a.x * ((cell.b.y * cell.c.z) - (cell.b.z * cell.c.y))) - (cell.a.y * ((cell.b.x * cell.c.z) - (cell.b.z * cell.c.x)))) + (cell.a.z * ((cell.b.x * cell.c.y) - (cell.b.y * cell.c.x)))))))) * cell.c.z))⟩ : Vec3)
+
+/-- the default `max_delta=1e-05` of `find_unchanged_atom_pairs` -/
+def findUnchangedAtomPairs_default_max_delta : Rat := (Dec.toRat ⟨1, 5⟩)
+
+/-- translated from `find_unchanged_atom_pairs` in mofun/atoms.py; the structures are given by their position rows and their per-atom element lists (`Atoms.elements`); `none` = IndexError -/
+def findUnchangedAtomPairs (orig_structure_positions : List Vec3) (orig_structure_elements : List String) (final_structure_positions : List Vec3) (final_structure_elements : List String) (max_delta : Rat) : Option (List (Nat × Nat)) := do
+  let match_pairs : List (Nat × Nat) := []
+  let match_pairs ← Py.forFoldM? (Py.enumerate orig_structure_positions) match_pairs (fun match_pairs (i, p1) => do
+      let match_pairs ← Py.forBreakM? (Py.enumerate final_structure_positions) match_pairs (fun match_pairs (j, p2) => do
+          let t3 ← (if (Py.normLt (⟨(p2.x - p1.x), (p2.y - p1.y), (p2.z - p1.z)⟩ : Vec3) max_delta) then (do let t1 ← (orig_structure_elements[i]?); let t2 ← (final_structure_elements[j]?); pure (t1 == t2)) else (some false))
+          if t3 then
+            let match_pairs : List (Nat × Nat) := (match_pairs ++ [(i, j)])
+            pure (match_pairs, true)
+          else
+            pure (match_pairs, false)
+          )
+      pure match_pairs
+      )
+  pure match_pairs
+
+/-- translated from `atoms_of_type` in mofun/helpers.py: the positions of `element` in `types`, ascending -/
+def atomsOfType (types : List String) (element : String) : List Nat :=
+  (List.filterMap (fun (i, t) => if ((t == element)) then some i else none) (Py.enumerate types))
+
+/-- translated from `replace_pattern_in_structure` in mofun/mofun.py (FRAGMENT: is the replacement empty, i.e. is this a pure deletion) -/
+def replaceEmptyBranch (replace_pattern_len : Nat) : Bool :=
+  (replace_pattern_len == 0)
+
+/-- translated from `replace_pattern_in_structure` in mofun/mofun.py (FRAGMENT: the deletion set of the empty-replacement branch, `to_delete |= set([idx for match in match_indices for idx in match])`) -/
+def replaceEmptyDelete (to_delete : List Nat) (match_indices : List (List Nat)) : List Nat :=
+  let to_delete : List Nat := (Py.setUnion to_delete (List.flatten (List.map (fun match_ => (List.map (fun idx => idx) match_)) match_indices)))
+  to_delete
 
 end Mofun.Generated.Code
